@@ -196,10 +196,14 @@ def from_Composition(composition):
     # warning Throw exception
     if not hasattr(composition, "tracks"):
         return False
+    def quoted(text):
+        # a LilyPond string ends at the first bare double quote
+        return str(text).replace("\\", "\\\\").replace('"', '\\"')
+
     result = '\\header { title = "%s" composer = "%s" opus = "%s" } ' % (
-        composition.title,
-        composition.author,
-        composition.subtitle,
+        quoted(composition.title),
+        quoted(composition.author),
+        quoted(composition.subtitle),
     )
     for track in composition.tracks:
         result += from_Track(track) + " "
